@@ -85,6 +85,7 @@ type interpreter struct {
 	initDepth int
 	trace     bool
 	directInit bool
+	iteCache   map[iteKey]*Term
 }
 
 type deferred struct {
@@ -393,6 +394,10 @@ func visitInstr(fr *frame, instr ssa.Instruction) continuation {
 
 	case *ssa.Store:
 		addr := fr.get(instr.Addr)
+		if sr, isRef := addr.(*symref); isRef {
+			sr.store(fr, fr.get(instr.Val))
+			break
+		}
 		p, ok := addr.(*value)
 		if !ok {
 			panic(engineErr{fmt.Sprintf("store through %T", addr)})
@@ -480,30 +485,43 @@ func visitInstr(fr *frame, instr ssa.Instruction) continuation {
 	case *ssa.IndexAddr:
 		x := fr.get(instr.X)
 		idx := fr.get(instr.Index)
+		var elems []value
 		switch x := x.(type) {
 		case []value:
-			k := fr.concIndex(idx, len(x))
-			fr.set(instr, &x[k])
+			elems = x
 		case *value: // *array
 			if x == nil {
 				panic(runtimeErr{"invalid memory address or nil pointer dereference"})
 			}
-			a := (*x).(array)
-			k := fr.concIndex(idx, len(a))
-			fr.set(instr, &a[k])
+			elems = []value((*x).(array))
 		default:
 			panic(engineErr{fmt.Sprintf("unexpected x type in IndexAddr: %T", x)})
 		}
+		if s, ok := idx.(*sym); ok && len(elems) > 3 {
+			et := deref(instr.Type())
+			if b := basicOf(et); b != nil && b.Info()&(types.IsInteger|types.IsBoolean|types.IsFloat) != 0 && len(elems) <= 512 {
+				// symbolic element reference: loads become ite chains
+				ts := i.ts
+				t64 := ts.Resize(s.t, 64, isSigned(instr.Index.Type()))
+				if !fr.cond(boolVal(ts.bvCmp("bvult", t64, ts.BV(uint64(len(elems)), 64)))) {
+					panic(runtimeErr{fmt.Sprintf("index out of range [symbolic] with length %d", len(elems))})
+				}
+				fr.set(instr, &symref{elems: elems, idx: t64, et: et})
+				break
+			}
+		}
+		k := fr.concIndex(idx, len(elems), instr.Index.Type())
+		fr.set(instr, &elems[k])
 
 	case *ssa.Index:
 		x := fr.get(instr.X)
 		idx := fr.get(instr.Index)
 		switch x := x.(type) {
 		case array:
-			fr.set(instr, fr.indexRead([]value(x), idx))
+			fr.set(instr, fr.indexRead([]value(x), idx, instr.Index.Type(), instr.Type()))
 		case string:
 			if s, ok := idx.(*sym); ok {
-				fr.set(instr, fr.indexRead(strBytes(x), s))
+				fr.set(instr, fr.indexRead(strBytes(x), s, instr.Index.Type(), instr.Type()))
 			} else {
 				k := asInt64(idx)
 				if k < 0 || k >= int64(len(x)) {
@@ -512,7 +530,7 @@ func visitInstr(fr *frame, instr ssa.Instruction) continuation {
 				fr.set(instr, x[k])
 			}
 		case symstr:
-			fr.set(instr, fr.indexRead([]value(x), idx))
+			fr.set(instr, fr.indexRead([]value(x), idx, instr.Index.Type(), instr.Type()))
 		default:
 			panic(engineErr{fmt.Sprintf("unexpected x type in Index: %T", x)})
 		}
@@ -839,4 +857,85 @@ func stackOf(fr *frame) string {
 		}
 	}
 	return sb.String()
+}
+
+// symref is a pointer to elems[idx] with a symbolic in-range index over
+// scalar elements.
+type symref struct {
+	elems []value
+	idx   *Term // BV64, known to be < len(elems)
+	et    types.Type
+}
+
+type iteKey struct {
+	p   *value
+	n   int
+	idx int
+	h   uint64
+}
+
+func (r *symref) load(fr *frame) value {
+	return mkSym(fr.i.iteChain(r.elems, r.idx), basicOf(r.et).Kind())
+}
+
+// iteChain builds elems[idx] as an ite chain; chains over all-concrete
+// tables are cached per worker (validated by a content hash).
+func (i *interpreter) iteChain(elems []value, idx *Term) *Term {
+	ts := i.ts
+	n := len(elems)
+	h := uint64(14695981039346656037)
+	conc := true
+	for _, e := range elems {
+		var x uint64
+		switch v := e.(type) {
+		case uint8:
+			x = uint64(v)
+		case int32:
+			x = uint64(v)
+		case uint16:
+			x = uint64(v)
+		case uint32:
+			x = uint64(v)
+		case int:
+			x = uint64(v)
+		case bool:
+			if v {
+				x = 1
+			}
+		default:
+			conc = false
+		}
+		if !conc {
+			break
+		}
+		h = (h ^ x) * 1099511628211
+	}
+	var key iteKey
+	if conc {
+		key = iteKey{&elems[0], n, idx.id, h}
+		if t, ok := i.iteCache[key]; ok {
+			return t
+		}
+	}
+	t := i.termOf(elems[n-1])
+	for k := n - 2; k >= 0; k-- {
+		t = ts.Ite(ts.Eq(idx, ts.BV(uint64(k), 64)), i.termOf(elems[k]), t)
+	}
+	if conc {
+		if i.iteCache == nil {
+			i.iteCache = map[iteKey]*Term{}
+		}
+		i.iteCache[key] = t
+	}
+	return t
+}
+
+func (r *symref) store(fr *frame, v value) {
+	ts := fr.i.ts
+	k0 := basicOf(r.et).Kind()
+	vt := fr.i.termOf(v)
+	for k := range r.elems {
+		c := ts.Eq(r.idx, ts.BV(uint64(k), 64))
+		fr.i.setCell(&r.elems[k], mkSym(ts.Ite(c, vt, fr.i.termOf(r.elems[k])), k0))
+	}
 }
